@@ -24,6 +24,7 @@ type CaseC03 struct {
 	GoEmpty bool        `json:"go_empty,omitempty"`
 	PreFail bool        `json:"pre_fail,omitempty"` // failing encoder calls precede the call under test
 	Typed   []string    `json:"typed,omitempty"`    // Go types given to the numeric scalars, in walk order, cyclically ("" keeps float64)
+	Alias   *AliasSpec  `json:"alias,omitempty"`    // one container object gets a second parent in the value (a Map built in Go may share sub-structure)
 }
 
 func init() { register("C03", checkC03) }
@@ -78,6 +79,9 @@ func genC03(t *rapid.T) CaseC03 {
 		case 2:
 			c.Tags = []string{"myroot", "myelem"}
 		}
+	}
+	if rapid.IntRange(0, 7).Draw(t, "alias") == 0 {
+		c.Alias = &AliasSpec{Src: rapid.IntRange(0, 30).Draw(t, "asrc"), Dst: rapid.IntRange(0, 30).Draw(t, "adst"), Key: rapid.SampledFrom([]string{"al", "a", "b"}).Draw(t, "akey")}
 	}
 	if c.Mode != "j2x" && rapid.IntRange(0, 2).Draw(t, "typed") == 0 {
 		// a Map built in Go holds numbers of any numeric type, not only the float64 a JSON decoder produces
@@ -206,6 +210,16 @@ func checkC03(c CaseC03, info *Info) *Failure {
 	val := materialize(deepCopy(c.Value), c.Typed, &n1)
 	orig := materialize(deepCopy(c.Value), c.Typed, &n2)
 	info.ClassIf(len(c.Typed) > 0 && n1 > 0, "numbers of Go types other than float64")
+	if vm, ok := val.(map[string]interface{}); ok && c.Alias != nil {
+		om := orig.(map[string]interface{})
+		if applyAlias(vm, *c.Alias, true) && applyAlias(om, *c.Alias, false) {
+			info.Class("shared sub-structure in the value")
+		} else {
+			n1, n2 = 0, 0
+			val = materialize(deepCopy(c.Value), c.Typed, &n1)
+			orig = materialize(deepCopy(c.Value), c.Typed, &n2)
+		}
+	}
 	switch c.Mode {
 	case "map-xml-root", "map-indent-root":
 		m, ok := val.(map[string]interface{})
